@@ -88,7 +88,8 @@ def cases(tier, seed):
                 c = {"kind": "chunked_keys", "func": f, "lengths": lengths, "N": N, "G": G, "mask": {"kind": "none"}, "ncols": 1, "dtype": dtx}
                 c["name"] = f"chunked keys vs contiguous:GroupBy.{f}/{dtx}/chunks={'+'.join(map(str, lengths))},G={G}/mask=none"
                 out.append(c)
-        for sl in ((1, None), (None, -1), (2, None), (-1, None), (None, 1), (lengths[0], None)):
+        # slice bounds inside, on and beyond both ends of the rows (Python clamps: a start below -len is row 0, one above len selects nothing)
+        for sl in ((1, None), (None, -1), (2, None), (-1, None), (None, 1), (lengths[0], None), (-N - 1, None), (-N - 2, N - 1), (N + 1, None), (-N, None)):
             for f in ("sum", "first"):
                 c = {"kind": "chunked_keys", "func": f, "lengths": lengths, "N": N, "G": G, "mask": {"kind": "slice", "start": sl[0], "stop": sl[1], "step": None},
                      "ncols": 1, "dtype": "float64"}
